@@ -5,6 +5,8 @@ denominator Q together with the rounding error).  TLC (RotTrace) judges every re
   funcs  <out>                from_angle / to_angle / transpose / inverse over all Euler triples of the MC domain
   shapes <edges.json> <out>   the same expression shapes with seeded other exact values, and with reals
                               (multiples of 15, near-pole, large magnitudes): numeric residues of the laws
+  ctors  <out>                every constructor of a rotation (from_basis with every subset of axes, axis_angle, from_yaw/
+                              pitch/roll, from_angstr, Vec.to_angle, to_angle_roll) swept through its special-case thresholds
   replay <replay.json> <out>  re-execute the history stored in a replay file
 """
 from __future__ import annotations
@@ -473,6 +475,208 @@ def num_expr(out, shp: dict, rng: random.Random, flavour: str) -> None:
                  'flavour': flavour}, case)
 
 
+# ------------------------------------------------------------------ every constructor of a rotation, swept through
+# its own special-case thresholds (numeric residues, judged by TLC like the other continuum laws)
+def thresholds() -> dict:
+    """Float literals used in comparisons inside the constructors' source (read reflectively from the tree under
+    test), so that a changed or added threshold is straddled as well."""
+    import inspect
+    import re
+    import srctools.math as sm
+    out = {}
+    for name, fn in (('from_basis', sm.Py_MatrixBase.from_basis), ('_to_angle', sm.Py_MatrixBase._to_angle),
+                     ('inverse', sm.Py_MatrixBase.inverse), ('axis_angle', sm.Py_MatrixBase.axis_angle),
+                     ('Vec.to_angle', sm.Py_VecBase.to_angle), ('Angle.from_basis', sm.Py_AngleBase.from_basis)):
+        lits = set()
+        for m in re.finditer(r'(<=|>=|<|>)\s*(\d+\.?\d*(?:[eE][-+]?\d+)?)(?![\w.])', inspect.getsource(fn)):
+            v = float(m.group(2))
+            if 0.0 < v < 1.0:
+                lits.add(v)
+        out[name] = sorted(lits)
+    return out
+
+
+def sweep_h(thr: dict) -> list:
+    """Horizontal lengths of a nearly vertical unit direction: decades and half-decades 1e-9..1e-1, and both sides
+    of every threshold literal found in the source, read as a length and as a squared length."""
+    hs = {10.0 ** (e / 2.0) for e in range(-18, -1)}
+    for lits in thr.values():
+        for lit in lits:
+            for t in (lit, math.sqrt(lit)):
+                hs.update({t * 0.5, t * 0.999, t * 1.001, t * 2.0})
+    # stay away from the rounding boundary itself: both sides are covered by the 0.999 / 1.001 neighbours
+    edges = [t for lits in thr.values() for lit in lits for t in (lit, math.sqrt(lit))]
+    return sorted(h for h in hs if h < 0.5 and all(abs(h / t - 1.0) > 1e-6 for t in edges))
+
+
+TILTS = [(1.0, 0.0), (-1.0, 0.0), (0.0, 1.0), (0.0, -1.0), (0.6, 0.8), (-0.8, 0.6), (-0.6, -0.8), (0.8, -0.6)]
+LENGTHS = [1.0, 1e-5, 2.5e-6, 1e3, 1e6, 0.37]
+ROT_CLS = ('Matrix', 'FrozenMatrix', 'Angle', 'FrozenAngle')
+
+
+def band_of(h: float) -> str:
+    return 'pole' if h == 0.0 else str(math.floor(math.log10(h)))
+
+
+def unit(v):
+    n = math.sqrt(sum(x * x for x in v))
+    return [x / n for x in v]
+
+
+def ctor_laws(out, obj, want: dict, sig: dict, case: dict) -> None:
+    """The rotation clauses on one constructed object; want = {row index: direction the row must point in}."""
+    mf = mat_of(obj)
+    is_ang = isinstance(obj, (Angle, FrozenAngle))
+    tol = angle_tol(mf) if is_ang else 1e-9
+    ortho = max(abs(sum(mf[i][k] * mf[j][k] for k in range(3)) - (1.0 if i == j else 0.0)) for i in range(3) for j in range(3))
+    det = (mf[0][0] * (mf[1][1] * mf[2][2] - mf[1][2] * mf[2][1]) - mf[0][1] * (mf[1][0] * mf[2][2] - mf[1][2] * mf[2][0])
+           + mf[0][2] * (mf[1][0] * mf[2][1] - mf[1][1] * mf[2][0]))
+    if not is_ang:
+        num_rec(out, 'ctor.proper', max(ortho, abs(det - 1.0)), 1e-9, sig, case)
+        try:
+            inv_resid = maxdiff(flat(mat_of(obj.inverse())), flat(mat_of(obj.transpose())))
+        except ArithmeticError:
+            inv_resid = 1.0
+        num_rec(out, 'ctor.inverse', inv_resid, 1e-9, sig, case)
+    worst = 0.0
+    for v in ([3.0, -4.0, 12.0], [1e6, 2.0, -5e5]):
+        r = floats_of(Vec(*v) @ obj)
+        worst = max(worst, abs(math.sqrt(sum(x * x for x in r)) / math.sqrt(sum(x * x for x in v)) - 1.0))
+        # rotating by the object is rotating by the matrix it stands for
+        worst = max(worst, maxdiff(r, vmul(v, mf)) / math.sqrt(sum(x * x for x in v)))
+    num_rec(out, 'ctor.length', worst, 1e-9, sig, case)
+    if want and tol is not None:
+        resid = max(maxdiff(mf[i], unit(vec)) for i, vec in want.items())
+        num_rec(out, 'ctor.axis', resid, tol, dict(sig, gimbal=tol > 1e-9), case)
+
+
+def ctor_case(out, case: dict) -> None:
+    """Build one object from a stored case description and judge it (also used by replay)."""
+    c = case['ctor']
+    cls = case['cls']
+    sig = {'ctor': c, 'cls': cls, 'given': case.get('given', ''), 'band': case.get('band', ''), 'tilt': case.get('tilt', '')}
+    try:
+        if c == 'from_basis':
+            vecs = {ax: (Vec if n % 2 == 0 else FrozenVec)(*v) for n, (ax, v) in enumerate(sorted(case['vecs'].items()))}
+            obj = CLS[cls].from_basis(**vecs)
+            want = {'xyz'.index(ax): v for ax, v in case['vecs'].items()}
+            if 'full' in case:      # two or three axes given: the whole basis is determined
+                want = {i: case['full'][i] for i in range(3)}
+        elif c == 'axis_angle':
+            obj = CLS[cls].axis_angle(Vec(*case['axis']) if case['how'] % 2 else tuple(case['axis']), case['angle'])
+            ctor_laws(out, obj, {}, sig, case)
+            ax = unit(case['axis'])
+            num_rec(out, 'ctor.axis', maxdiff(vmul(ax, mat_of(obj)), ax), 1e-9, sig, case)     # the axis is fixed
+            ref = {(1, 0, 0): euler_to_mat(0, 0, case['angle']), (0, 1, 0): euler_to_mat(case['angle'], 0, 0),
+                   (0, 0, 1): euler_to_mat(0, case['angle'], 0)}.get(tuple(case['axis']))
+            if ref is not None:
+                num_rec(out, 'ctor.convention', maxdiff(flat(mat_of(obj)), flat(ref)), 1e-9, sig, case)
+            return
+        elif c in ('from_yaw', 'from_pitch', 'from_roll'):
+            a = case['angle']
+            obj = getattr(CLS[cls], c)(a)
+            ref = euler_to_mat(a if c == 'from_pitch' else 0, a if c == 'from_yaw' else 0, a if c == 'from_roll' else 0)
+            ctor_laws(out, obj, {}, sig, case)
+            num_rec(out, 'ctor.convention', maxdiff(flat(mat_of(obj)), flat(ref)), 1e-9, sig, case)
+            return
+        elif c == 'from_angstr':
+            p, y, r = case['vals']
+            text = [f'{p!r} {y!r} {r!r}', f'({p!r} {y!r} {r!r})', f'<{p!r} {y!r} {r!r}>'][case['how'] % 3]
+            obj = CLS[cls].from_angstr(text)
+            ctor_laws(out, obj, {}, sig, case)
+            num_rec(out, 'ctor.convention', maxdiff(flat(mat_of(obj)), flat(euler_to_mat(p, y, r))), 1e-9, sig, case)
+            return
+        elif c == 'vec_to_angle':
+            v = case['vec']
+            obj = (Vec if case['how'] % 2 else FrozenVec)(*v).to_angle(case['roll'])
+            want = {0: v}
+            mf = mat_of(obj)
+            num_rec(out, 'ctor.axis', maxdiff(mf[0], unit(v)), 1e-9, sig, case)       # no gimbal allowance: roll is given
+            num_rec(out, 'ctor.axis', abs((obj.roll - case['roll'] + 180.0) % 360.0 - 180.0) / 360.0, 1e-9, dict(sig, given='roll'), case)
+            return
+        elif c == 'to_angle_roll':
+            import warnings
+            with warnings.catch_warnings():
+                warnings.simplefilter('ignore')
+                obj = Vec(*case['full'][0]).to_angle_roll(FrozenVec(*case['full'][2]))
+            want = {i: case['full'][i] for i in range(3)}
+        else:
+            raise SystemExit('unknown constructor ' + c)
+    except Exception as exc:  # noqa: BLE001 - a constructor refusing a valid input is a violation, not a harness failure
+        num_rec(out, 'ctor.error', 1.0, 0.0, dict(sig, et=type(exc).__name__), case)
+        return
+    ctor_laws(out, obj, want, sig, case)
+
+
+def mode_ctors(out: hlib.RecWriter, stats: dict) -> None:
+    thr = thresholds()
+    stats['thresholds_in_source'] = thr
+    hs = sweep_h(thr)
+    stats['pole_offsets'] = len(hs)
+    rng = random.Random(hlib.seed() * 6151 + 9)
+    thorough = hlib.tier() == 'thorough'
+    n = 0
+    # one direction given: exact poles and every offset x tilt direction x both poles, lengths and classes cycling
+    for given in 'xyz':
+        for pole in (1.0, -1.0):
+            for h in [0.0] + hs:
+                for tn, (tx, ty) in enumerate(TILTS if h else TILTS[:1]):
+                    for cls in (ROT_CLS if thorough else (ROT_CLS[n % 4], ROT_CLS[(n + 2) % 4])):
+                        ln = LENGTHS[n % len(LENGTHS)]
+                        v = [h * tx * ln, h * ty * ln, pole * math.sqrt(max(0.0, 1.0 - h * h)) * ln]
+                        ctor_case(out, {'ctor': 'from_basis', 'cls': cls, 'given': given, 'vecs': {given: v}, 'band': band_of(h),
+                                        'tilt': f'{tx:g},{ty:g}', 'h': h})
+                        n += 1
+                    if given == 'x':
+                        ctor_case(out, {'ctor': 'vec_to_angle', 'cls': 'Angle', 'given': 'x', 'band': band_of(h), 'tilt': f'{tx:g},{ty:g}',
+                                        'vec': [h * tx, h * ty, pole * math.sqrt(max(0.0, 1.0 - h * h))], 'roll': [0.0, 33.0, -1e-14, 720.5][n % 4],
+                                        'how': n})
+    # directions away from the poles (horizontal, diagonal, random), single axis
+    for _ in range(400 if thorough else 60):
+        v = [rng.uniform(-1, 1) for _ in range(3)]
+        if rng.random() < 0.3:
+            v[rng.randrange(3)] = 0.0
+        if sum(x * x for x in v) < 1e-3:
+            continue
+        v = unit(v)
+        given = 'xyz'[n % 3]
+        ln = LENGTHS[n % len(LENGTHS)]
+        ctor_case(out, {'ctor': 'from_basis', 'cls': ROT_CLS[n % 4], 'given': given, 'vecs': {given: [x * ln for x in v]},
+                        'band': 'far', 'tilt': 'random'})
+        ctor_case(out, {'ctor': 'vec_to_angle', 'cls': 'Angle', 'given': 'x', 'band': 'far', 'tilt': 'random', 'vec': [x * ln for x in v],
+                        'roll': rng.uniform(-400, 400), 'how': n})
+        n += 1
+    # two or three axes given: rows of a known rotation (near-pole and general), scaled to non-unit lengths
+    for k in range(600 if thorough else 120):
+        fl = ('pole', 'real', 'm15')[k % 3]
+        ref = euler_to_mat(*gen_angle(rng, fl))
+        for sub in ('xy', 'xz', 'yz', 'xyz'):
+            vecs = {ax: [x * LENGTHS[(k + i) % len(LENGTHS)] for x in ref['xyz'.index(ax)]] for i, ax in enumerate(sub)}
+            ctor_case(out, {'ctor': 'from_basis', 'cls': ROT_CLS[(k + len(sub)) % 4], 'given': sub, 'vecs': vecs, 'full': ref,
+                            'band': fl, 'tilt': ''})
+        if k % 4 == 0:
+            ctor_case(out, {'ctor': 'to_angle_roll', 'cls': 'Angle', 'given': 'xz', 'full': ref, 'band': fl, 'tilt': ''})
+    # axis_angle: directions incl. nearly vertical ones and non-unit lengths x angles incl. 0, tiny, half and full turns
+    angles = [0.0, 1e-9, -1e-9, 15.0, 90.0, 180.0, 179.99999999, 359.999, -45.0, 720.5, 1e-3, 123.456]
+    axes = [[1, 0, 0], [0, 1, 0], [0, 0, 1], [0, 0, -1], [-1, 0, 0], [3.0, -4.0, 12.0], [1e-5, 0.0, 0.0], [2e3, 2e3, -1e3]]
+    axes += [[h * 0.6, h * 0.8, 1.0] for h in hs[::3]]
+    for i, ax in enumerate(axes):
+        for j, a in enumerate(angles):
+            ctor_case(out, {'ctor': 'axis_angle', 'cls': ('Matrix', 'FrozenMatrix')[(i + j) % 2], 'axis': ax, 'angle': a, 'how': i + j,
+                            'band': 'axis', 'tilt': ''})
+    # single-axis rotations and the text constructor on reals, multiples of 15 and tiny offsets
+    vals = [15.0 * k for k in range(-24, 49, 3)] + [x + s * e for x in (0.0, 90.0, 180.0, 270.0, 360.0) for e in (1e-12, 1e-9, 1e-6, 1e-3)
+                                                   for s in (1, -1)] + [rng.uniform(-720, 720) for _ in range(40)]
+    for i, a in enumerate(vals):
+        ctor_case(out, {'ctor': ('from_yaw', 'from_pitch', 'from_roll')[i % 3], 'cls': ('Matrix', 'FrozenMatrix')[i % 2], 'angle': a,
+                        'band': 'angle', 'tilt': ''})
+    for i in range(300 if thorough else 90):
+        fl = ('pole', 'real', 'm15')[i % 3]
+        ctor_case(out, {'ctor': 'from_angstr', 'cls': ('Matrix', 'FrozenMatrix')[i % 2], 'vals': gen_angle(rng, fl), 'how': i, 'band': fl, 'tilt': ''})
+    stats['constructor_cases'] = n
+    stats['records'] = out.n
+
+
 def mode_shapes(edge_file: str, out: hlib.RecWriter, stats: dict) -> None:
     edges = json.load(open(edge_file))
     seen = {}
@@ -517,7 +721,9 @@ def mode_replay(path: str, out: hlib.RecWriter) -> None:
     elif rec['k'] == 'num':
         buf = _Buf()
         buf.n = 0
-        if 'vals' in h:
+        if 'ctor' in h:
+            ctor_case(buf, h)
+        elif 'vals' in h:
             num_value_laws(buf, h['vals'], rec['sig'].get('flavour', 'real'), h['how'])
         else:
             replay_num_expr(buf, h)
@@ -556,6 +762,8 @@ def main() -> None:
         mode_funcs(out, stats)
     elif mode == 'shapes':
         mode_shapes(sys.argv[2], out, stats)
+    elif mode == 'ctors':
+        mode_ctors(out, stats)
     elif mode == 'replay':
         mode_replay(sys.argv[2], out)
     else:
